@@ -57,7 +57,7 @@ def depth1_instances(model, tier: str):
     """(tree, label) for every concrete expression class known to the specification."""
     names = [c.name for c in model.concrete_expression_classes()]
     out = []
-    ns = list(range(1, 9)) if tier == "quick" else list(range(1, 31))
+    ns = (list(range(1, 13)) + [15, 16]) if tier == "quick" else list(range(1, 31))
     exp_bases = [0.5, 1, 2, E, 3.0, 10]
     log_bases = [0.5, 2, E, 3.0, 10]
     x, y, z, w = (("Variable", v) for v in ("x", "y", "z", "w"))
